@@ -374,16 +374,16 @@ func c09Plugin(c *wk.Ctx, r *wk.Rand, idx int64) {
 		}
 		for ei := 0; ei < r.Intn(3); ei++ {
 			eid := fmt.Sprintf("emit%d", ei)
-			if ei == 0 && idx%2 == 1 {
+			if ei == 0 && (idx/12)%2 == 1 {
 				eid = "sig0" // a step may receive and emit a signal under the same ID: two tables, two schemas
 			}
 			emitters[eid] = schema.NewSignalSchema(eid, mkScope(id+".signal_emitters."+eid), nil)
 		}
-		if len(handlers) == 0 && idx%2 == 0 {
+		if len(handlers) == 0 && (idx/12)%2 == 0 {
 			handlers = nil // nil and empty containers must describe alike
 			c.Count("steps_with_nil_signal_handler_map")
 		}
-		if len(emitters) == 0 && idx%3 == 0 {
+		if len(emitters) == 0 && (idx/12)%3 == 0 {
 			emitters = nil
 		}
 		steps = append(steps, schema.NewCallableStepWithSignals[any, any](id, in, outs, handlers, emitters, nil, nil,
@@ -449,6 +449,51 @@ func c09Plugin(c *wk.Ctx, r *wk.Rand, idx int64) {
 		c.Violation("C09:plugin:description-rejected:direct:"+site+normMsg(err), fmt.Sprintf("UnserializeSchema rejects the plugin's own description: %v %s", err, msg), wit)
 	} else {
 		check("direct", direct)
+	}
+	// the same steps in a plain schema (NewSchema) whose map keys are not the step IDs, one step under two keys: the
+	// description and the schema rebuilt from it keep the keys
+	if (idx/12)%2 == 0 {
+		keyed := map[string]*schema.StepSchema{}
+		for i, st := range steps {
+			keyed["alias-"+st.ID()] = st.ToStepSchema()
+			if i == 0 {
+				keyed["second-key-for-"+st.ID()] = keyed["alias-"+st.ID()]
+			}
+		}
+		var plain schema.Schema[schema.Step]
+		var pd any
+		var rbPlain *schema.SchemaSchema
+		if p, site, msg, _ := wk.Guard(func() {
+			plain = schema.NewSchema(keyed)
+			pd, err = plain.SelfSerialize()
+			if err == nil {
+				rbPlain, err = schema.UnserializeSchema(pd)
+			}
+		}); p || err != nil {
+			c.Violation("C09:plugin:description-rejected:keyed:"+site+normMsg(err), fmt.Sprintf("a schema whose step keys differ from the step IDs cannot be described and rebuilt: %v %s", err, msg), wit)
+		} else {
+			c.Count("plain_schemas_with_keys_other_than_ids")
+			for key, st := range keyed {
+				rb := rbPlain.StepsValue[key]
+				if rb == nil {
+					c.Violation("C09:plugin:part-missing:keyed:step", fmt.Sprintf("the schema rebuilt from the description lacks the step under key %q (keys: %v)", key, len(rbPlain.StepsValue)), wit)
+					continue
+				}
+				var a, b any
+				var e1, e2 error
+				if p, site, msg, _ := wk.Guard(func() {
+					a, e1 = schema.NewSchema(map[string]*schema.StepSchema{"k": st}).SelfSerialize()
+					b, e2 = schema.NewSchema(map[string]*schema.StepSchema{"k": rb}).SelfSerialize()
+				}); p || e1 != nil || e2 != nil {
+					c.Violation("C09:plugin:redescribe-fails:keyed:"+site, fmt.Sprintf("%v %v %s", e1, e2, msg), wit)
+				} else if cmpx.Canon(a) != cmpx.Canon(b) {
+					c.Violation("C09:plugin:not-a-fixed-point:keyed:"+whyClass(diffOf(a, b)), fmt.Sprintf("the step under key %q of the rebuilt schema is not the step that was described: %s", key, diffOf(a, b)), wit)
+				}
+			}
+			if len(rbPlain.StepsValue) != len(keyed) {
+				c.Violation("C09:plugin:part-missing:keyed:step", fmt.Sprintf("%d step keys were described, the rebuilt schema has %d", len(keyed), len(rbPlain.StepsValue)), wit)
+			}
+		}
 	}
 	// through a real ATP hello
 	c2s := rig.NewPipe("c2s", rig.ModeBuffered, nil)
